@@ -273,3 +273,57 @@ def rule_rpt_queue(prog):
                  "Layout::tick does not clear `%s` exactly on the path where the action queue was empty (cleared on a path that also runs a "
                  "queued action, or never): the guard either never engages or never lets go" % flag)
     return res
+
+
+def rule_queue_trans(prog):
+    """R-QUEUE-TRANS (C01, C02): a transparent action is never put into the action queue unresolved.
+
+    Queued actions run on a later tick with a layer stack computed from the top (`trans_resolution_layer_order()
+    .skip(1)`), not from the layer the queuing action was found on. A queued `_` can therefore resolve to the action
+    that queued it (a switch on the base layer with another layer held above it), which queues it again on every tick;
+    Layout::tick processes no input while the queue is non-empty. Rule: every push of a switch case into the action
+    queue takes the case through a match whose Trans arm substitutes the result of resolve_coord (computed with the
+    layer stack of the current invocation)."""
+    from kq.analysis import discr_switches
+    res = RuleResult("R-QUEUE-TRANS", "switch cases are resolved (Trans -> the action below the switch) before they are queued", floor=1)
+    f = prog.fn_opt(KB + "Layout::do_action")
+    if f is None:
+        res.viol("anchor", "keyberon/src/layout.rs", "do_action not found")
+        return res
+    res.fn(f)
+    ACTION = "kanata_keyberon::action::Action"
+    pushes = [(bi, t) for bi, t in f.calls() if _short(t) == "push_back" and t["args"] and (root_desc(f, t["args"][0]) or "").endswith("action_queue")
+              and any(_short(t2) == "next" and "SwitchActions" in (callee_name(t2) or "") + (t2.get("ga") or "") + (f.local_ty(t2["args"][0]["l"]) if t2["args"] and is_place(t2["args"][0]) else "")
+                      and bi in f.reach_from(b2) for b2, t2 in f.calls())]
+    if not pushes:
+        res.viol("anchor", f.loc, "the push of switch cases into the action queue was not found")
+        return res
+    resolves = [bi for bi, t in f.calls() if _short(t) == "resolve_coord"]
+    sws = [sw for sw in discr_switches(prog, f, ACTION) if "Trans" in sw.arms]
+    for n, (pb, pt) in enumerate(pushes):
+        # a match on the case with an explicit Trans arm dominates the push, and that arm's value comes from resolve_coord
+        ok = False
+        for sw in sws:
+            if sw.bb == 0 or not f.dominates(sw.bb, pb):
+                continue
+            region = sw.arm_region("Trans")
+            for b in region:
+                for st in f.stmts(b):
+                    if st["k"] == "assign" and st["rv"]["k"] == "use" and is_place(st["rv"]["a"]):
+                        src = st["rv"]["a"]
+                        d = f.single_def(src["l"]) if not proj(src) else None
+                        hops = 0
+                        while d is not None and d[2] == "assign" and d[3]["k"] == "use" and is_place(d[3]["a"]) and hops < 4:
+                            d = f.single_def(d[3]["a"]["l"])
+                            hops += 1
+                        if d is not None and d[2] == "call" and _short(d[3]) == "resolve_coord":
+                            ok = True
+        key = "switch-case-push#%d" % n
+        res.inst(key, where="%s:%s" % (f.file, pt.get("ln")), ok=ok)
+        res.oblige(ok)
+        if not ok:
+            res.viol(key, "%s:%s" % (f.file, pt.get("ln")),
+                     "a switch case is pushed into the action queue without a `Trans => <resolve_coord(..)>` substitution: a transparent "
+                     "case is then looked up from the top of the layer stack when it runs, can find the switch that queued it, and "
+                     "re-queues itself on every tick - no input is processed while the action queue is non-empty")
+    return res
